@@ -83,6 +83,12 @@ def scenarios():
     S["i-hardlink-input"] = dict(files={"a.md": A}, hardlinks={"hl.md": "a.md"}, argv=["-i", "--nobackup", "a.md"], targets={"a.md": (A, fmt(A))})
     S["auto-hardlink-input"] = dict(files={"a.md": A, "b.md": B}, hardlinks={"hl.md": "a.md"}, argv=["--auto", "a.md", "b.md"],
                                     targets={"a.md": (A, fmt(A, True)), "b.md": (B, fmt(B, True))})
+    S["o-symlink-target"] = dict(files={"a.md": A, "real-out.md": "OLD OUTPUT\n"}, links={"out.md": "real-out.md"}, argv=["-o", "out.md", "a.md"],
+                                 targets={"out.md": ("->real-out.md", fmt(A))})
+    ACR = A.replace("\n", "\r\n")
+    S["i-backup-crlf"] = dict(files={"a.md": ACR}, argv=["-i", "a.md"], targets={"a.md": (ACR, fmt(A))}, backup=True)
+    S["auto-crlf-3files"] = dict(files={"a.md": ACR, "b.md": B, "c.md": C.replace("\n", "\r")}, argv=["--auto", "a.md", "b.md", "c.md"],
+                                 targets={"a.md": (ACR, fmt(A, True)), "b.md": (B, fmt(B, True)), "c.md": (C.replace("\n", "\r"), fmt(C, True))})
     return S
 
 
@@ -149,6 +155,12 @@ def judge(sc, code, fired, snap, crashed):
     for rel, target in sc.get("hardlinks", {}).items():
         if snap.get(rel) != sc["files"][target]:
             viol.append(("other-file-modified", {"path": rel, "content": snap.get(rel), "expected": sc["files"][target], "note": "second hard link"}))
+    # a backup, whenever it exists, holds the original bytes (scenarios without a pre-existing .orig)
+    if backup and "stale_orig" not in sc and not sc.get("links"):
+        for path, (old, new) in sc["targets"].items():
+            o = snap.get(path + ".orig")
+            if o is not None and o != old:
+                viol.append(("backup-is-not-the-original", {"path": path + ".orig", "content": o, "original": old}))
     if not crashed:
         done = all(snap.get(p) == new for p, (old, new) in sc["targets"].items())
         if code == 0 and not done:
